@@ -486,9 +486,12 @@ impl Inner {
             Some(r) => format!("{:?}", r),
             None => String::new(),
         };
+        // the numbers are scraped from the Debug output of private fields: a miss must be LOUD (an observation the model never
+        // prints), not a silent pass of the C17 oracle on zeros
         let seg = match (s.find("objects: {"), s.find("objects_completed: ")) {
             (Some(a), Some(b)) if a < b => &s[a..b],
-            _ => "",
+            _ if self.receiver.is_none() => "",
+            _ => return "HARNESS-ERROR probe-scrape: `objects: {` .. `objects_completed: ` not found in the Debug output of Receiver".to_string(),
         };
         let (mut cache, mut csize, mut nballoc, mut alloc) = (0usize, 0usize, 0usize, 0usize);
         let mut fails = Vec::new();
@@ -499,11 +502,18 @@ impl Inner {
                     bytes += count_list(&c[i + 9..]);
                 }
             }
-            let cs = nums_after(obj, "cache_size: ").first().copied().unwrap_or(0);
-            let nb = nums_after(obj, "nb_allocated_blocks: ").first().copied().unwrap_or(0);
-            let tot = nums_after(obj, "total_allocated_blocks_size: ").last().copied().unwrap_or(0);
+            let (cs, nb, tot, toi) = match (
+                nums_after(obj, "cache_size: ").first().copied(),
+                nums_after(obj, "nb_allocated_blocks: ").first().copied(),
+                nums_after(obj, "total_allocated_blocks_size: ").last().copied(),
+                nums_after(obj, " toi: ").first().copied(),
+                obj.contains("AlcPktCache {") == obj.contains(", data: ["),
+            ) {
+                (Some(cs), Some(nb), Some(tot), Some(toi), true) => (cs, nb, tot, toi),
+                _ => return "HARNESS-ERROR probe-scrape: cache_size / nb_allocated_blocks / total_allocated_blocks_size / toi / cache data not found in the Debug output of ObjectReceiver".to_string(),
+            };
+            // no block in the deque: no `block_size` field at all
             let largest = nums_after(obj, "block_size: ").into_iter().max().unwrap_or(0);
-            let toi = nums_after(obj, " toi: ").first().copied().unwrap_or(0);
             if bytes > max + max_pkt {
                 fails.push(("C17:cache-over-limit".to_string(), format!("object {}: {} bytes in the packet cache, configured object_max_cache_size {} (largest packet {})", toi, bytes, max, max_pkt)));
             }
@@ -712,7 +722,9 @@ pub struct OrecvEngine {
 
 impl OrecvEngine {
     pub fn new() -> OrecvEngine {
-        OrecvEngine { tx: None, rx: None, hung: false, timeout: Duration::from_secs(5) }
+        // 60 s: an op includes the Debug formatting of multi-MB receiver states (probe) and runs next to 20 other checks; a real hang is
+        // caught all the same (and by the core per-op watchdog VERIF_OP_TIMEOUT)
+        OrecvEngine { tx: None, rx: None, hung: false, timeout: Duration::from_secs(60) }
     }
 
     fn spawn(&mut self) {
